@@ -3034,3 +3034,21 @@ proof fn lemma_idx_fits(jobs: Seq<NodeInfo>, m: Map<String, usize>, i: int)
     assert(m.contains_key(jobs[i].job_id));
     assert(m[jobs[i].job_id] == i);
 }
+
+/// C05 hand-over at the upstream-failure handler: the helper's "every parked Ephemeral upstream is woken" (stated against the job
+/// table at the call) holds against the table at the start of the handler as well - only the handled job itself was written before
+proof fn lemma_parked_woken_rebase(dag: &GraphType, j_call: Seq<NodeInfo>, pj: Seq<NodeInfo>, sigs: Seq<Signal>, jobs: Seq<NodeInfo>, n: usize, gen: usize)
+    requires
+        parked_ups_woken(dag, j_call, sigs, jobs, n, gen),
+        pj.len() == j_call.len(), n < pj.len(),
+        edges_in_range(dag, pj.len()),
+        forall|i: int| 0 <= i < pj.len() && i != n ==> (#[trigger] j_call[i]).state == pj[i].state,
+    ensures parked_ups_woken(dag, pj, sigs, jobs, n, gen),
+{
+    reveal(parked_ups_woken);
+    assert forall|u: usize| #![trigger dag.is_nbr(n, Direction::Incoming, u)] dag.is_nbr(n, Direction::Incoming, u) && is_parked_eph(pj[u as int].state)
+        implies woken(sigs, jobs, u, gen) by {
+        assert(u != n);
+        assert(j_call[u as int].state == pj[u as int].state);
+    }
+}
